@@ -55,11 +55,13 @@ type stageRig struct {
 	mu       sync.Mutex
 	cond     *sync.Cond
 	auto     bool // gates open
-	autoProc bool // only the validator gate is open (Recover calls process directly)
 	waiters  []*gateWaiter
 	tickets  []*ticket
 	pending  int
-	doneEvts []string // "validate:name" / "finalize:name" in order
+	pendV    map[string]int // queued for validation, by name
+	pendF    int            // queued for finalization
+	vOrder   []string       // names queued for validation, in spawn order
+	doneEvts []string       // "validate:name" / "finalize:name" in order
 	opened   map[string]chan struct{}
 
 	// crash image
@@ -111,13 +113,14 @@ func newStageRig() (*stageRig, error) {
 
 func (r *stageRig) newInstance(dir string) {
 	r.mu.Lock()
-	// release everything that still hangs on the old instance
-	for _, w := range r.waiters {
-		close(w.ch)
-	}
+	// goroutines of the old instance that wait at a gate stay parked for good (a dead
+	// process does nothing any more)
 	r.waiters = nil
 	r.tickets = nil
 	r.pending = 0
+	r.pendV = map[string]int{}
+	r.pendF = 0
+	r.vOrder = nil
 	r.doneEvts = nil
 	r.auto = false
 	r.root = filepath.Join(dir, "stage")
@@ -144,11 +147,7 @@ func (r *stageRig) close() {
 	r.abandon()
 	r.mu.Lock()
 	r.root = "\x00none"
-	for _, w := range r.waiters {
-		close(w.ch)
-	}
 	r.waiters = nil
-	r.auto = true
 	r.mu.Unlock()
 	r.cond.Broadcast()
 	activeRig = nil
@@ -199,14 +198,22 @@ func (r *stageRig) onHook(label string, kv ...any) {
 	r.mu.Lock()
 	if root != r.root {
 		r.mu.Unlock()
-		return // an abandoned instance
+		// an abandoned instance (or a Stage of another rig, e.g. the end-to-end rig):
+		// a dead process must not act any more, so its workers park at the next gate
+		if strings.HasPrefix(root, r.sandbox) && strings.HasSuffix(label, ".begin") {
+			select {}
+		}
+		return
 	}
 	switch label {
 	case "stage.spawn.validate":
 		r.pending++
+		r.pendV[first]++
+		r.vOrder = append(r.vOrder, first)
 		r.tickets = append(r.tickets, &ticket{kind: "validate", name: first})
 	case "stage.spawn.finalize":
 		r.pending++
+		r.pendF++
 		r.tickets = append(r.tickets, &ticket{kind: "finalize", name: first})
 	case "stage.enq.validate.begin", "stage.enq.finalize.begin":
 		kind := "validate"
@@ -218,7 +225,7 @@ func (r *stageRig) onHook(label string, kv ...any) {
 		for {
 			if r.root != root {
 				r.mu.Unlock()
-				return
+				select {}
 			}
 			if mineT == nil {
 				for _, t := range r.tickets {
@@ -267,14 +274,25 @@ func (r *stageRig) onHook(label string, kv ...any) {
 		r.cond.Broadcast()
 	case "stage.done.validate":
 		r.pending--
+		r.pendV[first]--
+		for i, n := range r.vOrder {
+			if n == first {
+				r.vOrder = append(r.vOrder[:i], r.vOrder[i+1:]...)
+				break
+			}
+		}
 		r.doneEvts = append(r.doneEvts, "validate:"+first)
+		r.cond.Broadcast()
+	case "stage.process.end":
+		r.doneEvts = append(r.doneEvts, "process:"+first)
 		r.cond.Broadcast()
 	case "stage.done.finalize":
 		r.pending--
+		r.pendF--
 		r.doneEvts = append(r.doneEvts, "finalize:"+first)
 		r.cond.Broadcast()
 	case "stage.process.begin", "stage.finh.begin":
-		if r.auto || (r.autoProc && label == "stage.process.begin") {
+		if r.auto {
 			break
 		}
 		kind := "process"
@@ -391,19 +409,39 @@ func (r *stageRig) releaseGate(kind, name string) (string, bool) {
 	return w.name, ok
 }
 
+// settle runs the pipeline to quiescence one action at a time, in the model's canonical
+// order: queued validations first (spawn order), then the head of the finalize queue.
 func (r *stageRig) settle() bool {
-	r.mu.Lock()
-	r.auto = true
-	for _, w := range r.waiters {
-		close(w.ch)
+	for step := 0; step < 10000; step++ {
+		r.mu.Lock()
+		pending := r.pending
+		var next string
+		if len(r.vOrder) > 0 {
+			next = r.vOrder[0]
+		}
+		pf := r.pendF
+		r.mu.Unlock()
+		if pending == 0 {
+			return true
+		}
+		if next != "" {
+			if _, ok := r.releaseGate("process", next); !ok {
+				return false
+			}
+			continue
+		}
+		if pf > 0 {
+			if _, ok := r.releaseGate("finh", ""); !ok {
+				return false
+			}
+			continue
+		}
+		// something is spawned but not yet queued anywhere we track: wait for it
+		if !r.waitFor(10*time.Second, func() bool { return r.pending == 0 || len(r.vOrder) > 0 || r.pendF > 0 }) {
+			return false
+		}
 	}
-	r.waiters = nil
-	r.mu.Unlock()
-	ok := r.waitFor(30*time.Second, func() bool { return r.pending == 0 })
-	r.mu.Lock()
-	r.auto = false
-	r.mu.Unlock()
-	return ok
+	return false
 }
 
 // ---------------------------------------------------------------------------------------
@@ -468,13 +506,14 @@ type stageExec struct {
 	kinds     map[string]bool
 	delivered map[string][]byte          // target -> body seen in final dir (oracle)
 	versions  map[string]map[string]bool // name -> set of model hash tokens announced for it
+	corrupted map[string]bool
 }
 
 func newStageExec() *stageExec {
 	rig, err := newStageRig()
 	return &stageExec{rig: rig, err: err, md5Of: map[string]string{}, tokOf: map[string]string{},
 		names: map[string]bool{}, targets: map[string]bool{}, handles: map[string]*pendingRecv{},
-		kinds: map[string]bool{}, delivered: map[string][]byte{}, versions: map[string]map[string]bool{}}
+		kinds: map[string]bool{}, delivered: map[string][]byte{}, versions: map[string]map[string]bool{}, corrupted: map[string]bool{}}
 }
 
 func parseBodyTok(s string) ([]byte, bool) {
@@ -728,20 +767,40 @@ func (e *stageExec) do1(op []string) string {
 		}
 		return "ok"
 	case len(op) == 3 && op[0] == "process":
-		name, ok := r.releaseGate("process", unesc(op[1]))
-		if !ok {
-			if name == "" {
-				return "err-not-queued"
-			}
+		r.mu.Lock()
+		q := r.pendV[unesc(op[1])]
+		r.mu.Unlock()
+		if q <= 0 {
+			return "err-not-queued"
+		}
+		if _, ok := r.releaseGate("process", unesc(op[1])); !ok {
 			return "harness-timeout"
 		}
 		return "ok"
 	case len(op) == 3 && op[0] == "finh":
-		name, ok := r.releaseGate("finh", unesc(op[1]))
-		if !ok {
-			if name == "" {
-				return "err-not-queued"
+		r.mu.Lock()
+		q := r.pendF
+		r.mu.Unlock()
+		if q <= 0 {
+			return "err-not-queued"
+		}
+		// the handler holds the head of the channel; wait for it to reach the gate
+		var head string
+		if !r.waitFor(10*time.Second, func() bool {
+			for _, x := range r.waiters {
+				if x.kind == "finh" {
+					head = x.name
+					return true
+				}
 			}
+			return false
+		}) {
+			return "harness-timeout"
+		}
+		if head != unesc(op[1]) {
+			return "err-not-head"
+		}
+		if _, ok := r.releaseGate("finh", head); !ok {
 			return "harness-timeout"
 		}
 		return "ok"
@@ -772,6 +831,7 @@ func (e *stageExec) do1(op []string) string {
 		if err != nil {
 			return "err-nofile"
 		}
+		e.corrupted[unesc(op[1])] = true
 		info, _ := os.Stat(p)
 		if pos < len(b) {
 			b[pos] = byte(v)
@@ -795,13 +855,74 @@ func (e *stageExec) do1(op []string) string {
 		os.Chtimes(p, t, t)
 		return "ok"
 	case len(op) >= 2 && op[0] == "recover":
-		r.mu.Lock()
-		r.autoProc = true
-		r.mu.Unlock()
-		r.st.Recover()
-		r.mu.Lock()
-		r.autoProc = false
-		r.mu.Unlock()
+		// Recover validates the complete files it finds with 24 concurrent workers; to keep
+		// the hand-off order deterministic the rig lets them through one at a time, in walk
+		// order (which is the order of the names on the op line).
+		var expect []string
+		for _, tok := range op[2:] {
+			name := unesc(tok)
+			base := filepath.Join(r.root, name)
+			b, err := os.ReadFile(base + ".cmp")
+			if err != nil {
+				continue
+			}
+			var c sts.Partial
+			if json.Unmarshal(b, &c) != nil {
+				continue
+			}
+			if wb, err := os.ReadFile(base + ".wait"); err == nil && md5hex(wb) == c.Hash {
+				continue // finalize list
+			}
+			if _, err := os.Stat(base + ".full"); err == nil {
+				expect = append(expect, name)
+			} else if _, err := os.Stat(base + ".part"); err == nil && stage.VerifIsCompanionComplete(&c) {
+				expect = append(expect, name)
+			}
+		}
+		done := make(chan struct{})
+		st := r.st
+		go func() { st.Recover(); close(done) }()
+		for _, name := range expect {
+			key := "process:" + name
+			r.mu.Lock()
+			n0 := 0
+			for _, ev := range r.doneEvts {
+				if ev == key {
+					n0++
+				}
+			}
+			r.mu.Unlock()
+			var w *gateWaiter
+			if !r.waitFor(20*time.Second, func() bool {
+				for i, x := range r.waiters {
+					if x.kind == "process" && x.name == name {
+						w = x
+						r.waiters = append(r.waiters[:i], r.waiters[i+1:]...)
+						return true
+					}
+				}
+				return false
+			}) {
+				return "harness-timeout"
+			}
+			close(w.ch)
+			if !r.waitFor(20*time.Second, func() bool {
+				n := 0
+				for _, ev := range r.doneEvts {
+					if ev == key {
+						n++
+					}
+				}
+				return n > n0
+			}) {
+				return "harness-timeout"
+			}
+		}
+		select {
+		case <-done:
+		case <-time.After(30 * time.Second):
+			return "harness-timeout"
+		}
 		return "ok"
 	case len(op) >= 2 && op[0] == "cleanstrays":
 		r.st.VerifCleanStrays()
@@ -1016,20 +1137,28 @@ func (e *stageExec) oracleReceived(name, tok string, beg, end int64) {
 		return
 	}
 	r := e.rig
-	base := filepath.Join(r.root, name)
-	for _, ext := range []string{".part", ".full", ".wait"} {
-		if b, err := os.ReadFile(base + ext); err == nil {
-			if int64(len(b)) < end || string(b[beg:end]) != string(body[beg:end]) {
-				e.fails = append(e.fails, fmt.Sprintf("received-unsound: part %d:%d of %s (%s) reported as received but the staged%s bytes differ", beg, end, name, tok, ext))
-			}
-			return
-		}
-	}
-	// no staged file: must be delivered/logged with that hash
+	// delivered/logged with that hash: the answer is justified by the delivery
 	for _, l := range e.readLog() {
 		if l.name == name && l.hash == e.realHash(tok) {
 			return
 		}
+	}
+	if e.corrupted[name] {
+		return // the environment overwrote staged bytes of this name; what was received is no longer on disk
+	}
+	base := filepath.Join(r.root, name)
+	found := false
+	for _, ext := range []string{".wait", ".full", ".part"} {
+		if b, err := os.ReadFile(base + ext); err == nil {
+			found = true
+			if int64(len(b)) >= end && string(b[beg:end]) == string(body[beg:end]) {
+				return
+			}
+		}
+	}
+	if found {
+		e.fails = append(e.fails, fmt.Sprintf("received-unsound: part %d:%d of %s (%s) reported as received but no staged file holds these bytes", beg, end, name, tok))
+		return
 	}
 	e.fails = append(e.fails, fmt.Sprintf("received-unsound: part %d:%d of %s (%s) reported as received but nothing is staged or logged", beg, end, name, tok))
 }
